@@ -261,7 +261,12 @@ impl<const N: u32> PxE1<{ N }> {
                     frac_z = 0;
                 }
 
-                exp_z <<= 29 - reg_z;
+                // a regime longer than 29 bits leaves no room for the exponent bit
+                exp_z = if reg_z <= 29 {
+                    exp_z << (29 - reg_z)
+                } else {
+                    0
+                };
 
                 let mut u_z = Self::pack_to_ui(regime, exp_z as u32, frac_z);
 
